@@ -53,7 +53,8 @@ def run(prog, an, rep):
                'is outside that alphabet')
     rep.run_rules(prog, an, [factory_order, unambiguous, grammar,
                              destinations, construction_sites, round_trip,
-                             parent_lookup, version_tuple, notes])
+                             parent_lookup, version_tuple, cascade_listing,
+                             notes])
 
 
 def version_tuple(prog, an, rep):
@@ -271,6 +272,46 @@ def construction_sites(prog, an, rep):
     rep.floor('C18 w/ name construction sites', n['w/{}/{}'], 3)
     rep.floor('C18 q/w/ name construction sites', n['q/w/{}/{}/{}'], 1)
     rep.floor('C18 q/ name construction sites', n['q/{}'], 1)
+
+
+def cascade_listing(prog, an, rep):
+    """BranchCascade.build reads destination names from `git branch -a
+    --list`: what it hands to branch_factory is the whole ref name (minus
+    git's own decoration), not a suffix of it -- otherwise a feature branch
+    called bugfix/development/9.9 would count as development/9.9."""
+    R = 'C18.LNG.cascade-listing'
+    f = need_func(an, BR + '.BranchCascade.build')
+    calls = [x for x in prog.calls_in(f)
+             if (dotted(x.func) or '').startswith('re.') and len(x.args) == 2]
+    rep.floor('C18 name extraction in BranchCascade.build', len(calls), 1)
+    for x in calls:
+        rep.evaluated()
+        fn = dotted(x.func)
+        try:
+            pat = const_value(substitute_locals(f, x.args[0]))
+        except AnalysisError:
+            pat = None
+        ok = fn in ('re.match', 're.fullmatch') and isinstance(pat, str) \
+            and '(?P<name>' in pat
+        detail = 'the name is taken with %s(%r)' % (fn, pat)
+        if ok:
+            head, _, tail = pat.partition('(?P<name>')
+            deco = Lang.from_regex('^[*+]?\\s*(remotes/[^/\\s]+/)?$')
+            okh, w = Lang.from_regex('^' + head.lstrip('^') + '$') \
+                .subset_of(deco)
+            ok = okh and tail in ('.*)', '.*)$', '.+)', '.+)$')
+            if not okh:
+                detail = 'the text %r is skipped in front of the name' % w
+        rep.check(ok, R, f.qname + ': the destination name is the whole '
+                  'listed ref name', f.where(x), detail + ': a branch whose '
+                  'name merely ends like a destination name would enter the '
+                  'cascade as that destination')
+    # what is listed is then classified by branch_factory, and only
+    # destination kinds are kept by add_branch
+    bf = an.direct_calls(f, Spec.func(BR + '.branch_factory'))
+    rep.check(len(bf) >= 1, R, f.qname + ': listed names go through '
+              'branch_factory', f.where(), 'names are no longer classified '
+              'by branch_factory')
 
 
 def _vals(f, e):
